@@ -32,7 +32,7 @@ PROPERTY = "C30"
 LEVEL = "model_checking"
 
 PROFILES = ("low", "low", "low", "high_match", "high_mismatch", "high_mixed")
-MODES = ("fmmu", "direct", "mixed")
+MODES = ("fmmu", "direct", "mixed", "aero")   # "aero": with the package's AerotechBase terminals
 RESTARTS = (1, 3)                        # index % 5 of the cases that start the group twice
 LOSSKINDS = ("none", "lost", "late")     # the kind of unanswered frame a run is sure to contain
 JAVA_ENV = {"JAVA_TOOL_OPTIONS": "-XX:ParallelGCThreads=2"}
@@ -47,18 +47,37 @@ def gen_case(seed, index, big=False):
     mode = MODES[(index // len(PROFILES)) % len(MODES)]
     ncycles = rng.randint(4, 8 if big else 6)
     nterm = rng.randint(1, 4 if big else 3)
-    stations = rng.sample(range(1, 30000), nterm)
     terms, tvars = [], []
+    if mode == "aero":
+        nterm = max(nterm, 2)
+    stations = rng.sample(range(1, 30000), nterm)
+    # kind of terminal: "fmmu" / "direct" = EBPFTerminal with use_fmmu True / False; "aero" =
+    # a subclass of terminals.AerotechBase, the package's terminal class with an allocate of
+    # its own (first in_size bytes of a larger input PDO through an FMMU plus a one-byte FPRD,
+    # first out_size bytes of the output PDO by FPWR plus a one-byte FPWR)
+    kinds = [dict(fmmu="fmmu", direct="direct",
+                  mixed=rng.choice(["fmmu", "fmmu", "direct", "direct", "aero"]),
+                  aero=rng.choice(["fmmu", "direct", "aero", "aero"]))[mode] for _ in range(nterm)]
+    need_in = set()
+    if mode == "aero":
+        # for sure: an FMMU input terminal at a lower station than an Aerotech input terminal
+        a, b = sorted(rng.sample(range(nterm), 2), key=lambda i: stations[i])
+        kinds[a], kinds[b] = rng.choice(["fmmu", "fmmu", "aero"]), "aero"
+        need_in = {a, b}
     for i in range(nterm):
         in_sz, out_sz = rng.randint(0, 3), rng.randint(0, 3)
+        if i in need_in:
+            in_sz = in_sz or rng.randint(1, 3)
         if in_sz == 0 and out_sz == 0:
             if rng.random() < 0.5:
                 in_sz = rng.randint(1, 3)
             else:
                 out_sz = rng.randint(1, 3)
-        fmmu = dict(fmmu=True, direct=False, mixed=rng.random() < 0.5)[mode]
-        terms.append(dict(station=stations[i], fmmu=fmmu, nfmmu=rng.randint(2, 4),
-                          in_sz=in_sz, out_sz=out_sz,
+        kind = kinds[i]
+        terms.append(dict(station=stations[i], kind=kind, fmmu=kind == "fmmu",
+                          nfmmu=rng.randint(2, 4), in_sz=in_sz, out_sz=out_sz,
+                          pdo_in_sz=in_sz + (rng.randint(1, 4) if kind == "aero" and in_sz else 0),
+                          pdo_out_sz=out_sz + (rng.randint(1, 4) if kind == "aero" and out_sz else 0),
                           in_off=0x1000 + 0x80 * i + rng.choice([0, 3, 0x10, 0x22]),
                           out_off=0x1800 + 0x80 * i + rng.choice([0, 5, 0x10, 0x22])))
         # inputs: may overlap each other
@@ -237,7 +256,12 @@ def run_case(case, budget=60000):
                     pdos[0x6000 + 0x10 * vi, 1] = (sm, v["pos"], v["entry"])
                     attrs[f"pv{vi}"] = E.ProcessDesc(0x6000 + 0x10 * vi, 1, size) \
                         if v["explicit"] else E.ProcessDesc(0x6000 + 0x10 * vi, 1)
-        tclasses.append(type(f"Term{i}", (E.EBPFTerminal,), attrs))
+        if t["kind"] == "aero":
+            from ebpfcat import terminals
+            attrs.update(in_size=t["in_sz"], out_size=t["out_sz"])
+            tclasses.append(type(f"Term{i}", (terminals.AerotechBase,), attrs))
+        else:
+            tclasses.append(type(f"Term{i}", (E.EBPFTerminal,), attrs))
         tpdos.append(pdos)
 
     class RecDev(E.Device):
@@ -269,7 +293,7 @@ def run_case(case, budget=60000):
             o.name = f"T{i}"
             o.position = t["station"]
             o.use_fmmu = t["fmmu"]
-            o.pdo_in_sz, o.pdo_out_sz = t["in_sz"], t["out_sz"]
+            o.pdo_in_sz, o.pdo_out_sz = t["pdo_in_sz"], t["pdo_out_sz"]
             o.pdo_in_off = t["in_off"] if t["in_sz"] else None
             o.pdo_out_off = t["out_off"] if t["out_sz"] else None
             o.fmmu_used = [None] * t["nfmmu"]
@@ -295,7 +319,8 @@ def run_case(case, budget=60000):
 
         def snapshot():
             return dict(
-                terms=[dict(station=t["station"], fmmu=bool(t["fmmu"]), in_off=t["in_off"],
+                terms=[dict(station=t["station"], fmmu_in=t["kind"] != "direct",
+                            fmmu_out=t["kind"] == "fmmu", in_off=t["in_off"],
                             out_off=t["out_off"],
                             fm=[dict(logical=f["logical"], length=f["length"], phys=f["phys"],
                                      dir=f["type"]) for f in s.fmmus()])
@@ -428,7 +453,8 @@ def run_case(case, budget=60000):
     finally:
         logging.disable(logging.NOTSET)
     if h.cfg is None:       # the group never sent a cyclic frame
-        h.cfg = dict(terms=[dict(station=t["station"], fmmu=bool(t["fmmu"]), in_off=t["in_off"],
+        h.cfg = dict(terms=[dict(station=t["station"], fmmu_in=t["kind"] != "direct",
+                            fmmu_out=t["kind"] == "fmmu", in_off=t["in_off"],
                                  out_off=t["out_off"], fm=[]) for t in terms],
                      vars=[dict(term=v["term"] + 1, sm=v["sm"], pos=v["pos"], n=v["n"], bit=v["bit"])
                            for v in tvars], ndev=case["ndev"])
